@@ -209,6 +209,8 @@ static std::vector<double> a_grid()
 	for(double k : {1.0, 2.0, 3.0, 5.0, 10.0, 30.0, 31.0})
 		for(double d : {0.0, 5e-11, -5e-11, 1e-12, -1e-12, 3e-9})
 			as.push_back(k * (1 + d));
+	// whole-number shapes over the whole range (also passed as int and unsigned values below: the Poisson CDF does that)
+	for(double k : {4.0, 20.0, 99.0, 101.0, 170.0, 171.0, 400.0, 700.0, 800.0, 1500.0, 5000.0}) as.push_back(k);
 	std::sort(as.begin(), as.end());
 	return as;
 }
@@ -249,6 +251,13 @@ static void incomplete(unsigned long long& unit)
 			if(!(std::fabs(P - (double)r.P) <= acc)) fail("incomplete", key, "P_vs_reference", "GammaP = " + mc::dec(P) + " reference " + mc::dec((double)r.P));
 			if(!(Q <= prevQ + 2 * acc)) fail("incomplete", key, "Q_not_monotone_in_x", "Q increased from " + mc::dec(prevQ) + " to " + mc::dec(Q));
 			prevQ = Q;
+			// a whole-number shape written as an int or an unsigned value is the same shape
+			if(a == std::floor(a) && a >= 1 && a < 1e9)
+			{
+				double Qi = GammaQ(x, (int)a), Qu = GammaQ(x, (unsigned int)a), Pi = GammaP(x, (int)a), Pu = GammaP(x, (unsigned int)a);
+				if(!(std::fabs(Qi - (double)r.Q) <= acc && std::fabs(Qu - (double)r.Q) <= acc && std::fabs(Pi - (double)r.P) <= acc && std::fabs(Pu - (double)r.P) <= acc))
+					fail("incomplete", key, "integer_typed_shape_vs_reference", "GammaQ(x,int) = " + mc::dec(Qi) + " GammaQ(x,unsigned) = " + mc::dec(Qu) + " GammaP(x,int) = " + mc::dec(Pi) + " GammaP(x,unsigned) = " + mc::dec(Pu) + " reference Q " + mc::dec((double)r.Q));
+			}
 			if(a <= 170 && gam > 0 && std::isfinite(gam))
 			{
 				double up = Upper_Incomplete_Gamma(x, a), lo = Lower_Incomplete_Gamma(x, a);
